@@ -90,7 +90,17 @@ impl<'a> FieldsGen<'a> {
                 ..
             } => {
                 let checks = fields.iter().map(Field::as_presence_check);
-                quote!(#(#checks)*)
+
+                // If a field was marked `flatten`, now is the time to process any unclaimed meta items
+                // and mark the field as having been seen.
+                let flatten_field_init = fields.iter().find(|f| f.flatten).map(|v| {
+                    v.as_flatten_initializer(fields.iter().filter_map(Field::as_name).collect())
+                });
+
+                quote! {
+                    #flatten_field_init
+                    #(#checks)*
+                }
             }
             _ => panic!("FieldsGen doesn't support tuples for requirement checks"),
         }
